@@ -109,6 +109,8 @@ class Analysis:
                     if not ty.startswith('&mut') and not g.ty.get(pl, '').startswith('&mut'):
                         continue
                     v, w = self._classify_mut_call(g, c, ai, l, depth + 1, in_loop_keys=None)
+                    if v == 'seqpush':
+                        v = 'sens'
                     if v == 'keyed' and (self.prog.resolve(c.callee, g.crate) or self.prog.resolve(c.decl, g.crate)) is not None:
                         v, w = 'sens', w + ' (keyed effect of a nested helper: not summarised further)'
                     if v == 'sens':
@@ -284,6 +286,10 @@ class Analysis:
         if cn in SORTS:
             return 'ok', 'sort'
         if SEQ.search(tgt) and cn in SEQ_MUT | {'remove', 'pop', 'truncate', 'clear', 'drain', 'retain', 'swap', 'dedup'}:
+            if cn in ('push', 'push_back', 'extend', 'extend_from_slice', 'append') and re.search(r'(vec::Vec|VecDeque)<', tgt) and ai == 0:
+                # appending to a sequence: the sequence becomes hash-ordered (like `collect`); whether that matters is decided by what
+                # happens to it afterwards (classify_loop hands it to the sequence typestate when it is a local of the function)
+                return 'seqpush', 'sequence %s on %s' % (cn, tgt[:50])
             return 'sens', 'sequence %s on %s' % (cn, tgt[:50])
         if cn == 'flush':
             return 'ok', 'flush (adds no content)'
@@ -319,7 +325,7 @@ class Analysis:
         return 'sens', 'unmodelled external callee %s receives &mut outer state' % full
 
     # ------------------------------------------------------------------ sequences
-    def seq_typestate(self, fn, local, bb0, path=()):
+    def seq_typestate(self, fn, local, bb0, path=(), ignore_blocks=()):
         """`local` (at field path `path`, () = the local itself) holds a hash-ordered sequence from block bb0 on.
         Every order-observing use reachable from bb0 must be preceded, on every path from bb0, by a sort.
         Iterating the unsorted sequence re-enters the iterator analysis (the iterator local is added to the
@@ -383,7 +389,7 @@ class Analysis:
         uses = []
         iter_calls = []
         for c in fn.calls:
-            if c.bb == bb0 or is_tracing(c.exp):
+            if c.bb == bb0 or is_tracing(c.exp) or c.bb in ignore_blocks:
                 continue
             als = c.arg_locals()
             if any(a in whole for a in als):
@@ -662,6 +668,12 @@ class Analysis:
                 # decide conservatively: a whole-local store to an outside-defined local that is also *read* outside
                 # or carried is an effect when the value is element-derived
                 if any(elem_derived(o) for o in r.get('ops', [])) or ('pl' in r and (alias_of.get(r['pl']['l']) is None and r['pl']['l'] in elem)):
+                    if through_ptr:
+                        # `*slot = *slot + x` with slot = map.entry(own key).or_insert(..): one slot per element, no interleaving
+                        sv = self.per_element_slot(fn, dl, body, elem, next_call)
+                        if sv is not None:
+                            effects.append(('ok', 'store into a per-element slot (%s)' % sv, fn.where(s)))
+                            continue
                     effects.append(('sens', 'element-derived value stored to outer %s (selection by iteration order)'
                                     % fn.describe_local(dl), fn.where(s)))
             t = b['term']
@@ -699,6 +711,12 @@ class Analysis:
                 if not mutable:
                     continue
                 v, w = self._classify_mut_call(fn, c, ai, l, 0, None)
+                if v == 'seqpush':
+                    rl = [r for r in roots if not fn.is_param(r) and SEQ.search(fn.ty.get(r, '')) and not fn.ty.get(r, '').startswith('&')]
+                    if len(roots) == 1 and rl and not (is_place(a) and any(isinstance(e, dict) and 'f' in e for e in a['pl']['p'])):
+                        effects.append(('seqpush', w, c.where(), rl[0]))
+                        continue
+                    v = 'sens'
                 if v == 'sens':
                     sv = self.per_element_slot(fn, l, body, elem, next_call)
                     if sv is not None:
@@ -753,7 +771,7 @@ class Analysis:
         seen = set()
         while cur is not None and cur not in seen:
             seen.add(cur)
-            ds = [d for d in fn.defs.get(cur, []) if d[0] in body]
+            ds = [d for d in fn.defs.get(cur, []) if d[0] in body and not d[3]['dst']['p']]      # stores *through* the place are not definitions of it
             if len(ds) != 1:
                 return None
             bb, idx, kind, node = ds[0]
@@ -897,6 +915,18 @@ class Analysis:
                     self.emit(fn, c, k, 'sens', 'next() outside a loop takes the first element in hash order')
                     continue
                 effs = self.classify_loop(fn, lp[0], lp[1], c)
+                # `for x in hash { v.push(x) }` makes v a hash-ordered sequence, exactly like `v = hash.collect()`: judged by what
+                # happens to v after the loop (it must be sorted, with a total order, before any order-observing use)
+                for e in [e for e in effs if e[0] == 'seqpush']:
+                    effs.remove(e)
+                    v2, w2, rp2 = self.seq_typestate(fn, e[3], lp[0], ignore_blocks=lp[1])
+                    if v2 == 'returned':
+                        self.seq_verdict(fn, c, k + '|pushed', v2, 'pushed into %s: %s' % (fn.describe_local(e[3])[:60], w2), rp2)
+                        effs.append(('ok', '%s — %s' % (e[1], w2), e[2]))
+                    elif v2 == 'ok':
+                        effs.append(('ok', '%s — the sequence is %s' % (e[1], w2), e[2]))
+                    else:
+                        effs.append(('sens', '%s — %s' % (e[1], w2), e[2]))
                 bad = [e for e in effs if e[0] in ('sens', 'exit')]
                 if bad:
                     for n, e in enumerate(bad):
